@@ -39,16 +39,20 @@ pub struct C12Case {
 }
 
 /// Output path shapes, relative to the project directory ({t} = target index).
-const PATH_MENU: [&str; 6] = [
+const PATH_MENU: [&str; 10] = [
     "out_{t}",        // directory
     "out_{t}.txt",    // single file
     "missing_{t}",    // does not exist
     "gen/deep_{t}",   // nested directory
     "in_{t}",         // overlaps the target's input directory
     "gen/file_{t}.o", // nested single file
+    ".cache_{t}",     // dot directory (an undeclared `cache_{t}` sits next to it)
+    "./ds_{t}",       // written with a leading ./
+    "../up_{t}",      // outside the project directory (an undeclared `up_{t}` sits inside it)
+    ".hid_{t}.o",     // dot file (an undeclared `hid_{t}.o` sits next to it)
 ];
-const DIR_PATHS: [usize; 3] = [0, 3, 4];
-const FILE_PATHS: [usize; 2] = [1, 5];
+const DIR_PATHS: [usize; 6] = [0, 3, 4, 6, 7, 8];
+const FILE_PATHS: [usize; 3] = [1, 5, 9];
 
 /// What may be planted below a directory path.
 const ENTRY_MENU: [&str; 12] = [
@@ -75,7 +79,7 @@ pub fn c12_case() -> impl Strategy<Value = C12Case> {
         Just(".o.bak".to_string()),
     ];
     let outres = (
-        prop::collection::vec(0u8..6, 1..=2),
+        prop::collection::vec(0u8..PATH_MENU.len() as u8, 1..=2),
         prop::option::of(prop::collection::vec(ext, 0..=2)),
     )
         .prop_map(|(paths, extensions)| OutRes { paths, extensions });
@@ -184,12 +188,20 @@ impl C12Case {
         }
         seen
     }
+    /// Location of a declared path, relative to the sandbox root (`./x` and `../x` resolved).
     fn path_rel(&self, i: usize, menu: u8) -> String {
-        format!(
-            "{}/{}",
-            self.proj_rel(self.targets[i].proj),
-            PATH_MENU[menu as usize].replace("{t}", &i.to_string())
-        )
+        let raw = PATH_MENU[menu as usize].replace("{t}", &i.to_string());
+        let proj = self.proj_rel(self.targets[i].proj);
+        if let Some(r) = raw.strip_prefix("./") {
+            format!("{}/{}", proj, r)
+        } else if let Some(r) = raw.strip_prefix("../") {
+            match proj.rsplit_once('/') {
+                Some((parent, _)) => format!("{}/{}", parent, r),
+                None => r.to_string(),
+            }
+        } else {
+            format!("{}/{}", proj, raw)
+        }
     }
 }
 
@@ -225,6 +237,10 @@ fn plant_tree(sb: &Sandbox, case: &C12Case) {
         sb.write(&format!("{}/in_{}/lib.o", proj, i), b"input object\n");
         // a neighbour that no target declares
         sb.write(&format!("{}/keep_{}.o", proj, i), b"undeclared\n");
+        // look-alikes of the dotted / parent-relative declarations, never declared themselves
+        sb.write(&format!("{}/cache_{}/keep.o", proj, i), b"undeclared look-alike\n");
+        sb.write(&format!("{}/up_{}/keep.o", proj, i), b"undeclared look-alike\n");
+        sb.write(&format!("{}/hid_{}.o", proj, i), b"undeclared look-alike\n");
         // dummy state of every target
         sb.write(
             &format!("{}/.zinoma/{}.checksums", proj, case.id(i)),
@@ -478,6 +494,12 @@ pub fn eval_c12(case: &C12Case) -> CaseResult {
                 }
                 if m == 4 {
                     feats.insert("output-overlaps-input");
+                }
+                if matches!(m, 6 | 9) {
+                    feats.insert("dotted-output-with-look-alike");
+                }
+                if m == 8 {
+                    feats.insert("output-outside-project-dir");
                 }
             }
         }
